@@ -54,6 +54,8 @@ Weaker readings taken: a bare `assert` in ResolveVectorNotationTransformer.visit
 WHERE, marked TODO "currently limited to") counts as a refusal, like NotImplementedError; a *warning* followed
 by wrong code is a violation.
 """
+import re
+
 from vf import xform
 from vf.explore import deviations
 
@@ -496,32 +498,111 @@ def apply(case, files):
                 raise ValueError(xf)
 
 
+FLAGS = tuple(xform.FLAGS) + ('-finit-integer=-9999',)   # an index the rewrite forgot to set aborts deterministically
+
+
 def worker(case):
-    r = xform.run_case(case, apply, base=worker.base)
+    r = xform.run_case(case, apply, base=worker.base, flags=FLAGS)
     r['id'] = case['id']
     return r
 
 
 worker.base = None
+_MODRE = re.compile(r'(?i)\b(module\s+)vmod\b')
+
+
+def _batch_driver(ks):
+    lines = ['program drvb', '  implicit none', '  character(len=16) :: arg', '  call get_command_argument(1, arg)',
+             '  select case (trim(arg))']
+    for k in ks:
+        lines += [f"  case ('{k}')", f'    call run_{k}()']
+    lines += ['  end select', 'contains']
+    for k in ks:
+        body = DRIVER.replace('end program drv', f'end subroutine run_{k}').replace('program drv', f'subroutine run_{k}()')
+        body = body.replace('use vmod', f'use vmod_{k}')
+        lines.append(body.rstrip('\n'))
+    lines.append('end program drvb')
+    return '\n'.join(lines) + '\n'
+
+
+def _fast_batch(group):
+    """Fast path for one program: the original and every distinct transformed module are compiled in ONE gfortran
+    run (module renamed vmod_<k>) and executed one by one.  A variant is accepted here only if it compiles, exits 0
+    and prints exactly the original's output; everything else (Loki exception, compile/run error, different output)
+    is left to the unmodified xform.run_case so that every non-ok verdict comes from the standard path.
+    -> {index in group: result dict}"""
+    from vf import gf
+    from loki import Sourcefile, Frontend
+    xform.quiet()
+    src = group[0]['sources']
+    try:
+        base_text = [Sourcefile.from_source(t, frontend=Frontend.FP).to_fortran() for _f, t in src]
+    except Exception:  # pylint: disable=broad-except
+        return {}
+    texts = {}      # transformed text -> k
+    of_case = {}    # n -> k
+    for n, case in enumerate(group):
+        try:
+            files = xform.parse_sources(case)
+            apply(case, files)
+            new = files[src[0][0]].to_fortran()
+        except Exception:  # pylint: disable=broad-except
+            continue
+        of_case[n] = texts.setdefault(new, len(texts) + 1)
+    if not of_case:
+        return {}
+    mods = {0: src[0][1]}
+    mods.update({k: t for t, k in texts.items()})
+    outs = {}
+    live = sorted(mods)
+    with gf.Build(worker.base) as b:
+        for _attempt in range(3):
+            names = [b.write(f'vmod_{k}.f90', _MODRE.sub(rf'\g<1>vmod_{k}', mods[k])).name for k in live]
+            names.append(b.write('zz_driver.f90', _batch_driver(live)).name)
+            ok, err = b.fcompile(names, flags=list(FLAGS))
+            if ok:
+                break
+            bad = {int(m) for m in re.findall(r'vmod_(\d+)\.f90:\d+', err or '')}
+            if not bad or 0 in bad:
+                return {}
+            live = [k for k in live if k not in bad]
+        else:
+            return {}
+        for k in live:
+            rc, out, _e = b.run(['./a.out', str(k)], timeout=60)
+            if rc == 0:
+                outs[k] = xform.norm_out(out)
+    if 0 not in outs or not outs[0]:
+        return {}
+    res = {}
+    for n, k in of_case.items():
+        if outs.get(k) == outs[0]:
+            new = next(t for t, kk in texts.items() if kk == k)
+            changed = [new] != base_text
+            res[n] = dict(verdict='ok' if changed else 'unchanged-ok', detail='', changed=changed, transformed=None,
+                          nlines=len(outs[0]), distinct_lines=len(set(outs[0])), id=group[n]['id'])
+    return res
 
 
 def group_worker(group):
-    """all transformation variants of one program: the original (and any repeated transformed text) is built once.
-    xform.run_case is used unchanged; only its build step is memoised for the duration of the group."""
+    """all transformation variants of one program.  Variants that behave like the original are accepted by the
+    batched fast path; the rest go through xform.run_case (unchanged), whose build step is memoised for the
+    duration of the group so that the original is built once."""
+    import os
+    fast = {} if os.environ.get('VERIF_C30_NOBATCH') else _fast_batch(group)
     memo = {}
     real = xform.build_run
 
-    def cached(sources, driver, extra=(), base=None, flags=xform.FLAGS, timeout=60):
+    def cached(sources, driver, extra=(), base=None, flags=FLAGS, timeout=60):
         key = (tuple((f, t) for f, t in sources), driver, tuple((f, t) for f, t in extra), tuple(flags))
         if key not in memo:
             memo[key] = real(sources, driver, extra, base=base, flags=flags, timeout=timeout)
         return memo[key]
     xform.build_run = cached
     try:
-        out = [worker(case) for case in group]
+        out = [fast[n] if n in fast else worker(case) for n, case in enumerate(group)]
     finally:
         xform.build_run = real
-    import os
     if os.environ.get('VERIF_PROGRESS'):
         with open(os.environ['VERIF_PROGRESS'], 'a') as f:
             f.write(group[0]['id'].split('|', 1)[0] + ' ' + ' '.join(r['verdict'] for r in out) + '\n')
@@ -602,7 +683,7 @@ def run(ctx):
 
 
 def replay(case):
-    r = xform.run_case(case, apply)
+    r = xform.run_case(case, apply, flags=FLAGS)
     if r['verdict'] == 'HARNESS':
         raise RuntimeError(r['detail'])
     return None if r['verdict'] in ('ok', 'unchanged-ok', 'refused') else f'{r["verdict"]}: {r["detail"]}'
